@@ -15,6 +15,10 @@ CHECKS = {
             "R-codec is the trusted wire-format reference; NaN payloads not compared; serdes-sized capacities"),
     "C07": ("reference-decoder monitor on hostile byte strings + M-bitio shadow reader (every read_bits vs bounded reference extraction), metamorphic zero-extension/truncation",
             "R-codec decoder decides accept/reject and the value; serdes-sized capacities"),
+    "C08": ("reference-model monitor (R-layout offsets) on iterate_fields_with_offsets/enumerate_elements_with_offsets + membership of R-codec's real field placements + @print intrinsics observed through the print handler",
+            "R-layout / R-codec references; `_offset_` queried only where the set is small enough to expand"),
+    "C14": ("paired-revision workload: live comparison of container layouts/offsets + cross-revision serialize/deserialize against a structural projection oracle, M-bitio sub-reader shadow",
+            "R-codec / R-layout references; D is a structure"),
 }
 
 NOT_YET = {
